@@ -2,7 +2,7 @@
 function objects, refstring builder/resolver agreement."""
 import ast
 
-from ..astq import facts_of, is_name, kwarg, parse_fixture, returns_of, stmt_of
+from ..astq import expand as expand_, facts_of, is_name, kwarg, parse_fixture, returns_of, stmt_of
 from ..cfg import CFG
 from ..core import AnalysisError, norm, walk_local, dotted
 
@@ -204,5 +204,14 @@ def run(repo, chk):
            (facts_of(rs).mentions("_verify_existence(module, *path)") or ve is rs) and facts_of(rs).has("module, *path = _extract_info(fn)"),
            rs.where, "refstring() = builder + existence check on the same (module, path)")
     tr = repo.func("transform.transform")
+    # the instrumented source is compiled as a top-level def: under which path does the code registry learn about it?
+    ftr_ = facts_of(tr)
+    comp = [n for t_, c_, n in ftr_.items if isinstance(n, ast.Call) and is_name(n.func, "_compile") and n.args]
+    real_file = bool(comp) and all(expand_(c_.args[0], tr.node) in ("inspect.getsourcefile(fn)", "fn.__code__.co_filename") for c_ in comp)
+    repaired = any(isinstance(n, ast.Call) and norm(n.func).endswith(("assimilate", "_setcodepaths", "update_cache_entry")) and "__qualname__" in t_ for t_, c_, n in ftr_.items)
+    chk.ob("R14.3", "transform.transform:instrumented-code-filed-under-its-own-path", (not real_file) or repaired, tr.where,
+           "the code compiled for an instrumented function reaches the code registry under the function's own path" if (not real_file) or repaired else
+           "the instrumented source of EVERY function (methods and nested functions included) is compiled as a top-level `def <name>` of a module that carries the original file name, and nothing re-files it "
+           "under the qualified path: codefind's audit hook registers it as (file, <name>), so after a probe on K.plain the reference /mod/plain designates the method")
     chk.ob("R14.3", "transform.transform:assimilates-original-code", facts_of(tr).mentions("code_registry.assimilate(fn.__code__, (fn.__code__.co_filename,))"), tr.where,
            "transform registers the original code object's path so that it is known to the registry before any swap")
